@@ -318,7 +318,10 @@ class AsyncHTTP2Connection(AsyncConnectionInterface):
         headers = []
         for k, v in event.headers:
             if k == b":status":
-                status_code = int(v.decode("ascii", errors="ignore"))
+                try:
+                    status_code = int(v.decode("ascii", errors="ignore"))
+                except ValueError:
+                    raise RemoteProtocolError(f"Invalid :status header {v!r}")
             elif not k.startswith(b":"):
                 headers.append((k, v))
 
